@@ -9,7 +9,9 @@ rg = VerusUnit("c20_route_geom", "c20_route_geom", rlimit=30, paired_kani=(wit, 
 uw = KaniUnit("c20_uuid_wit", APP, modules=[dict(file=APP + "/src/plugin/output/default/uuid/plugin.rs", src="c20_uuid_wit.rs")], harnesses=[])
 uw.native_witnesses = ["c20_wit_identifier_table_row_i_is_vertex_i"]
 uu = VerusUnit("c20_uuid", "c20_uuid", rlimit=30, paired_kani=(uw, []))
-UNITS = [rg, uu, wit, uw]
+aw = KaniUnit("c20_app_wit", APP, modules=[dict(file=APP + "/src/app/compass/compass_app.rs", src="app_wit.rs")], harnesses=[])
+aw.native_witnesses = ["c20_wit_outputs_of_all_plugins_describe_the_same_result"]
+UNITS = [rg, uu, wit, uw, aw]
 EXPLANATION = ("TWO mechanisms of C20 (geometry lookup by edge id and concatenation in route order; identifier lookup by matched vertex index), NOT the agreement between the encoders. Decided (Verus, verbatim UUIDOutputPlugin::process, any table and response): "
                "the identifiers attached to a successful response are rows `origin id` and `destination id` of the identifier table -- the ones stored for the MATCHED vertices -- under the plugin's two keys, and no other field changes; a vertex beyond the end of "
                "the table is an error, never a neighbour's identifier; a failed search is left untouched (a witness loads a table with blank rows through the real from_file: row i stays vertex i). Decided (Verus, verbatim traversal_ops::create_route_linestring, "
